@@ -78,7 +78,16 @@ fn observe(vm: &Thread, name: &str, src: &str) -> Obs {
             let mut st = shape::ShapeStats { nodes: 0, opaque: 0 };
             match shape::check(vm, &t, v.get_ref(), &mut st) {
                 Ok(()) => Obs::Fine { accepted_value: true, nodes: st.nodes },
-                Err(e) => Obs::Wrong(format!("value does not have the shape of its reported type `{}`: {}", t, e), json!({"kind": "shape-mismatch"})),
+                Err(e) => {
+                    // a *value* whose reported type has an open row (`{ x : Int | a }`)
+                    let tt = t.to_string();
+                    let open_row = tt.split('|').skip(1).any(|rest| {
+                        let r = rest.trim_start();
+                        let id: String = r.chars().take_while(|c| c.is_ascii_lowercase() || c.is_ascii_digit() || *c == '_').collect();
+                        !id.is_empty() && r[id.len()..].trim_start().starts_with('}')
+                    });
+                    Obs::Wrong(format!("value does not have the shape of its reported type `{}`: {}", t, e), json!({"kind": "shape-mismatch", "open_row_in_value_type": open_row}))
+                }
             }
         }
         Err(e) => {
@@ -123,6 +132,48 @@ impl W {
 /// The single-module compiler findings (F18, F21, F22) are exercised by the other phases with
 /// per-case attribution; the multi-module phase rewrites those features away up front so that it
 /// observes cross-module behaviour only.
+/// Two misuses of a recursive *value* binding that only mutants contain: the record literal
+/// mentions the binding itself outside a lambda (`rec let r = { go = r.go }`), and a projection
+/// of a field the literal does not have (`r.x`)
+fn rec_value_misuse(e: &Expr) -> (bool, bool) {
+    fn mentions_strictly(e: &Expr, name: &str) -> bool {
+        match e {
+            Expr::Var(v) => v == name,
+            Expr::Lam(..) => false,
+            _ => crate::lang::reduce::children(e).into_iter().any(|c| mentions_strictly(c, name)),
+        }
+    }
+    let mut recs: Vec<(String, Vec<String>)> = Vec::new();
+    let mut strict = false;
+    crate::lang::gen::walk(e, &mut |x| {
+        if let Expr::LetRec(binds, _) = x {
+            for (n, params, v) in binds {
+                if params.is_empty() {
+                    if let Expr::Record(fs, None) = v {
+                        recs.push((n.clone(), fs.iter().map(|f| f.0.clone()).collect()));
+                        if fs.iter().any(|(_, fe)| mentions_strictly(fe, n)) {
+                            strict = true;
+                        }
+                    }
+                }
+            }
+        }
+    });
+    let mut missing = false;
+    crate::lang::gen::walk(e, &mut |x| {
+        if let Expr::Proj(b_, f) = x {
+            if let Expr::Var(v) = &**b_ {
+                if let Some((_, fields)) = recs.iter().find(|(n, _)| n == v) {
+                    if !fields.contains(f) {
+                        missing = true;
+                    }
+                }
+            }
+        }
+    });
+    (strict, missing)
+}
+
 fn neutralise_known(p: &mut Program) {
     let b0 = p.body.take().unwrap();
     let b1 = crate::lang::reduce::rec_values_as_functions(&b0);
@@ -243,8 +294,10 @@ impl Worker for W {
                 let mut feats: Vec<String> = g.feats.iter().map(|s| s.to_string()).collect();
                 feats.push("mutant".into());
                 let permuted = how.contains(&"permute-record-fields");
+                let (strict_self, missing_field) = rec_value_misuse(prog.body.as_ref().unwrap());
                 Some(json!({"kind": "mutant", "modules": [], "src": print_program(&prog, style), "settings": settings, "feats": feats, "mutations": how,
-                            "style_bits": style_bits, "ast": serde_json::to_value(&prog).unwrap(), "ast_twin": twin_json, "key": {"permuted_record_literal": permuted}}))
+                            "style_bits": style_bits, "ast": serde_json::to_value(&prog).unwrap(), "ast_twin": twin_json,
+                            "key": {"permuted_record_literal": permuted, "rec_value_strict_self_reference": strict_self, "rec_value_missing_field_projection": missing_field}}))
             }
             _ => {
                 let mut twin_rng = rng.clone();
